@@ -201,6 +201,11 @@ pub fn evaluate(tc: &TailCase) -> Result<Option<(String, String)>, String> {
             }
         }
         marks.push((*n, sim.vm.verif_state().max_sp));
+        // stop at the first iteration count whose high-water mark differs: the larger runs would
+        // only repeat the finding at a cost that grows with the leaked depth
+        if marks.last().unwrap().1 != marks[0].1 {
+            break;
+        }
     }
     let cap1 = sim.vm.verif_stack().len();
     let base = marks[0].1;
